@@ -17,6 +17,8 @@
 #include "crc.h"
 #include "oracle_crc.h"
 #include <sys/stat.h>
+#include <complex>
+#include <filesystem>
 #include "st_format.h"
 #include "st_stdio.h"
 #include "st_iostream.h"
@@ -439,7 +441,9 @@ static const char *ARG1_DESC[] = {
     "const char* \"a\\u00e9\\u20acb\"", "const char* \"\"", "const char* \"\\xA9\" (lone continuation byte)", "const char* \"abc\"",
     "ST::string \"\\u00e9\\u20ac\"", "std::string \"\\u20ac\"+U+1F600", "const wchar_t* L\"\\u00e9\\u20ac\"",
     "const char16_t* u\"\\u20ac\"+U+1F600", "const char32_t* U+1F600+\"\\u00e9\"", "std::string_view \"\\u00e9a\"", "const char8_t* u8\"\\u00e9\\u20ac\"",
-    "char8_t 0xC3"};
+    "char8_t 0xC3", "std::complex<double>(1.5,-2.25)", "std::complex<float>(-0.5,3)", "std::filesystem::path(\"d\u00e9/f\")",
+    "std::wstring L\"\u00e9\u20ac\"", "std::u16string_view u\"\u20ac\"", "std::u32string U+1F600", "std::u8string_view u8\"\u00e9\"", "long -5", "unsigned long 7",
+    "short -3", "unsigned char 200", "signed char -100"};
 enum { NARG1 = sizeof ARG1_DESC / sizeof *ARG1_DESC };
 
 static void dispatch1(unsigned ai, Ctx &c, const std::string &f)
@@ -479,6 +483,18 @@ static void dispatch1(unsigned ai, Ctx &c, const std::string &f)
     case 31: return run_case(c, f, std::string_view("\xC3\xA9" "a"));
     case 32: return run_case(c, f, (const char8_t *)u8"\u00e9\u20ac");
     case 33: return run_case(c, f, (char8_t)0xC3);
+    case 34: return run_case(c, f, std::complex<double>(1.5, -2.25));
+    case 35: return run_case(c, f, std::complex<float>(-0.5f, 3.0f));
+    case 36: return run_case(c, f, std::filesystem::path(std::u8string(u8"d\u00e9/f")));
+    case 37: return run_case(c, f, std::wstring(L"\u00e9\u20ac"));
+    case 38: return run_case(c, f, std::u16string_view(u"\u20ac"));
+    case 39: return run_case(c, f, std::u32string(U"\U0001F600"));
+    case 40: return run_case(c, f, std::u8string_view(u8"\u00e9"));
+    case 41: return run_case(c, f, -5L);
+    case 42: return run_case(c, f, 7UL);
+    case 43: return run_case(c, f, (short)-3);
+    case 44: return run_case(c, f, (unsigned char)200);
+    case 45: return run_case(c, f, (signed char)-100);
     }
 }
 
